@@ -5,12 +5,15 @@ against the independent references in ``boson`` and reports through
 ``circmon.report``. Evaluations are counted in ``circmon.STATS``."""
 from __future__ import annotations
 
+import weakref
+
 import numpy as np
 
 from . import boson
 from .circmon import STATS, report
 
 _installed = False
+_default_objects: list = []
 EVENTS: list = []          # (kind, key, payload) for the offline relation checker (C05)
 lw = None
 
@@ -409,6 +412,19 @@ def install():
         orig_sinit(self, circuit, input_state, source, detector, backend)
         try:
             STATS["sampler_default_checks"] += 1
+            # objects created for an omitted argument must be private to this sampler
+            for label, given, obj in (("source", source, self.source), ("detector", detector, self.detector),
+                                      ("backend", backend if not isinstance(backend, str) else None, self.backend)):
+                if given is None:
+                    if any(r() is obj for r in _default_objects):
+                        report("C11", f"the default {label} of a new Sampler is the same object another Sampler already "
+                                      f"holds (reconfiguring one in place reconfigures the other)",
+                               monitor="Sampler.__init__ post-condition", mechanism="default_object_shared:" + label)
+                    try:
+                        _default_objects.append(weakref.ref(obj))
+                    except TypeError:
+                        pass
+            del _default_objects[:-200]
             if source is None:
                 s = self.source
                 if not (s.brightness == 1 and s.purity == 1 and s.indistinguishability == 1
